@@ -46,9 +46,22 @@ JAS = [(a0, a1) for a0 in ACTIONS for a1 in ACTIONS]
 TOL = F(1, 10**9)
 
 # ------------------------------------------------------------------ factor tables: generator
-PATHS = [("a",), ("b",), ("c",), ("d",), ("e",), ("n", "p"), ("n", "q"), ("m", "x"), ("m", "y")]
+PATHS = [("a",), ("b",), ("c",), ("d",), ("e",), ("n", "p"), ("n", "q"), ("m", "x"), ("m", "y"), ("",), ("m", "")]
 PIDX = {p: i for i, p in enumerate(PATHS)}
-WEIGHTS = ["0", "1/8", "1/4", "3/8", "1/2", "1", "2", "3/2", "1/3", "1/100000"]
+WEIGHTS = ["0", "1/8", "1/4", "3/8", "1/2", "1", "2", "3/2", "1/3", "1/100000",
+           "1/1073741824", "1048575/1048576", "1000000"]
+SPREAD = ["1/" + "1" + "0" * 150, "1" + "0" * 150, "1"]          # score spread ~ 690
+# values of a variable: ints, strings or booleans (falsy members 0, "", False), one type per variable
+VALS = {"int": [0, 1, 2], "str": ["", "x", "y"], "bool": [False, True]}
+
+
+def vcode(v):
+    """value -> Z code used in the model (types never mix within a variable)"""
+    if isinstance(v, bool):
+        return 200 + int(v)
+    if isinstance(v, int):
+        return v
+    return 100 + VALS["str"].index(v)
 
 
 def nest(flat):
@@ -72,30 +85,38 @@ def flatten(dct, pre=()):
     return out
 
 
-def gen_rows(rng, paths, nrows, hetero=False, dup=False):
+def gen_rows(rng, paths, nrows, hetero=False, dup=False, vt=None):
     rows = []
     for _ in range(nrows):
         ps = list(paths)
         if hetero and len(ps) > 1 and rng.random() < .5:
             ps = rng.sample(ps, rng.randint(1, len(ps)))
             ps.sort(key=lambda p: paths.index(p))
-        rows.append([(p, rng.randint(0, 2)) for p in ps])
+        rows.append([(p, rng.choice(VALS[(vt or {}).get(p, "int")])) for p in ps])
     if dup and rows:
         rows.insert(rng.randint(0, len(rows)), list(rng.choice(rows)))
     return rows
 
 
-def gen_table(rng, paths, hetero=False, positive=False, ctor=None):
+def gen_table(rng, paths, hetero=False, positive=False, ctor=None, vt=None, allow_empty=False, pool=None):
     nrows = rng.randint(1, 4)
-    rows = gen_rows(rng, paths, nrows, hetero=hetero, dup=rng.random() < .2)
-    pool = [w for w in WEIGHTS if not (positive and w == "0")]
+    if allow_empty and rng.random() < .08:
+        return {"rows": [], "w": [], "ctor": "probs"}
+    rows = gen_rows(rng, paths, nrows, hetero=hetero, dup=rng.random() < .2, vt=vt)
+    pool = [w for w in (pool or WEIGHTS) if not (positive and w == "0")]
     ws = [rng.choice(pool) if rng.random() < .8 else "0" for _ in rows]
     if positive:
         ws = [w if w != "0" else "1/4" for w in ws]
     elif all(w == "0" for w in ws) and rng.random() < .7:
         ws[0] = "1/2"
     return {"rows": [nest(r) for r in rows], "w": ws,
-            "ctor": ctor or rng.choice(["probs", "probs", "logits"])}
+            "ctor": ctor or rng.choice(["probs", "probs", "logits", "logits", "uniform"]),
+            "sup": rng.choice(["list", "tuple"]), "arr": rng.random() < .3}
+
+
+def tw(t):
+    """effective weights of a generated table"""
+    return ["1"] * len(t["rows"]) if t.get("ctor") == "uniform" else t["w"]
 
 
 def pick_paths(rng, pool, k):
@@ -106,7 +127,8 @@ def pick_paths(rng, pool, k):
 
 def gen_ft_case(rng):
     shape = rng.choice(["product", "product", "product", "product3", "mix", "mix", "mixraw", "scale", "div",
-                        "norm", "marg", "margprod", "fence", "constraint"])
+                        "norm", "marg", "margprod", "fence", "constraint", "selfprod", "selfmix", "spread"])
+    vt = {p: rng.choice(["int", "int", "str", "bool"]) for p in PATHS}
     rel = rng.choice(["shared", "disjoint", "partial", "partial"])
     k1 = rng.randint(1, 3)
     p1 = pick_paths(rng, PATHS, k1)
@@ -120,20 +142,40 @@ def gen_ft_case(rng):
         p2 = pick_paths(rng, p1, rng.randint(1, len(p1))) + pick_paths(rng, rest, rng.randint(1, 2))
         rng.shuffle(p2)
     hetero = rng.random() < .15
-    c = rng.choice(["0", "1/4", "1/2", "1", "3", "7/10"])
-    cpos = rng.choice(["1/4", "1/2", "1", "3", "7/10"])
+    c = rng.choice(["0", "1/4", "1/2", "1", "3", "7/10", "1/1073741824", "1048575/1048576", "1000000"])
+    cpos = rng.choice(["1/4", "1/2", "1", "3", "7/10", "1/1073741824", "1048575/1048576", "1000000"])
     if shape == "product":
-        tabs = [gen_table(rng, p1, hetero), gen_table(rng, p2, hetero)]
+        tabs = [gen_table(rng, p1, hetero, vt=vt, allow_empty=True), gen_table(rng, p2, hetero, vt=vt, allow_empty=True)]
         expr = ["and", ["t", 0], ["t", 1]]
+    elif shape == "selfprod":
+        # the same table OBJECT on both sides
+        tabs = [gen_table(rng, p1, hetero, vt=vt)]
+        expr = ["and", ["t", 0], ["t", 0]]
+    elif shape == "selfmix":
+        tabs = [gen_table(rng, p1, vt=vt)]
+        expr = ["or", ["mul", ["t", 0], rng.choice(["0", "1/4", "1"])], ["rmul", ["t", 0], rng.choice(["0", "3/4", "1"])]]
+    elif shape == "spread":
+        # weights 1e-150 .. 1e150 (logit spread ~ 690): product / scaled mixture / normalize
+        tabs = [gen_table(rng, p1, vt=vt, pool=SPREAD), gen_table(rng, p1 if rng.random() < .5 else p2, vt=vt, pool=SPREAD)]
+        k = rng.randrange(3)
+        if k == 0:
+            expr = ["and", ["t", 0], ["t", 1]]
+        elif k == 1:
+            tabs[1] = gen_table(rng, p1, vt=vt, pool=SPREAD)
+            expr = ["or", ["mul", ["t", 0], "1/2"], ["mul", ["t", 1], "1/2"]]
+        else:
+            if all(w == "0" for w in tw(tabs[0])):
+                tabs[0]["w"][0] = SPREAD[0]
+            expr = ["norm", ["t", 0]]
     elif shape == "product3":
         p3 = pick_paths(rng, PATHS, rng.randint(1, 2))
-        tabs = [gen_table(rng, p1), gen_table(rng, p2), gen_table(rng, p3)]
+        tabs = [gen_table(rng, p1, vt=vt), gen_table(rng, p2, vt=vt), gen_table(rng, p3, vt=vt)]
         expr = ["and", ["and", ["t", 0], ["t", 1]], ["t", 2]]
     elif shape == "mix":
         a = rng.choice(["0", "1/4", "1/2", "1", "1/10"])
         bb = str(1 - F(a)) if rng.random() < .7 else rng.choice(["0", "1/3", "2"])
-        tabs = [gen_table(rng, p1), gen_table(rng, p1)]
-        if rng.random() < .5 and tabs[0]["rows"]:
+        tabs = [gen_table(rng, p1, vt=vt, allow_empty=True), gen_table(rng, p1, vt=vt, allow_empty=True)]
+        if rng.random() < .5 and tabs[0]["rows"] and tabs[1]["rows"]:
             # make sure some rows coincide
             tabs[1]["rows"][0] = json.loads(json.dumps(rng.choice(tabs[0]["rows"])))
         expr = ["or", [rng.choice(["mul", "rmul"]), ["t", 0], a], ["mul", ["t", 1], bb]]
@@ -147,32 +189,32 @@ def gen_ft_case(rng):
             rng.shuffle(q2)
         elif r < .5:
             q2 = p2
-        tabs = [gen_table(rng, p1), gen_table(rng, q2)]
+        tabs = [gen_table(rng, p1, vt=vt), gen_table(rng, q2, vt=vt)]
         expr = ["or", ["t", 0], ["t", 1]]
     elif shape == "scale":
-        tabs = [gen_table(rng, p1, hetero)]
+        tabs = [gen_table(rng, p1, hetero, vt=vt, allow_empty=True)]
         expr = [rng.choice(["mul", "rmul"]), ["t", 0], c]
     elif shape == "div":
-        tabs = [gen_table(rng, p1, hetero)]
+        tabs = [gen_table(rng, p1, hetero, vt=vt, allow_empty=True)]
         expr = ["div", ["t", 0], cpos]
     elif shape == "norm":
-        tabs = [gen_table(rng, p1, hetero)]
-        if all(w == "0" for w in tabs[0]["w"]):
+        tabs = [gen_table(rng, p1, hetero, vt=vt)]
+        if all(w == "0" for w in tw(tabs[0])):
             tabs[0]["w"][0] = "3/8"
         expr = ["norm", ["t", 0]]
     elif shape == "marg":
-        tabs = [gen_table(rng, p1)]
+        tabs = [gen_table(rng, p1, vt=vt)]
         ks = pick_paths(rng, p1, rng.randint(1, len(p1)))
         expr = ["marg", ["t", 0], [list(p) for p in ks]]
     elif shape == "margprod":
-        tabs = [gen_table(rng, p1), gen_table(rng, p2)]
+        tabs = [gen_table(rng, p1, vt=vt), gen_table(rng, p2, vt=vt)]
         allp = list(dict.fromkeys(p1 + p2))
         ks = pick_paths(rng, allp, rng.randint(1, len(allp)))
         expr = ["marg", ["and", ["t", 0], ["t", 1]], [list(p) for p in ks]]
     elif shape == "fence":
         # the grid game's fence pattern: move * p | stay * (1 - p)
-        a = rng.choice(["0", "1/4", "1/2", "1"])
-        t0 = gen_table(rng, p1, positive=True)
+        a = rng.choice(["0", "1/4", "1/2", "1", "1/1073741824", "1048575/1048576"])
+        t0 = gen_table(rng, p1, positive=True, vt=vt)
         t0["rows"] = t0["rows"][:2]
         t0["w"] = ["1/100000", "99999/100000"][:len(t0["rows"])]
         t0["ctor"] = "probs"
@@ -181,22 +223,22 @@ def gen_ft_case(rng):
         expr = ["or", ["mul", ["t", 0], a], ["mul", ["t", 1], str(1 - F(a))]]
     else:
         # the [1, 0] constraint pattern
-        t0 = gen_table(rng, p1, positive=True)
+        t0 = gen_table(rng, p1, positive=True, vt=vt)
         rows = t0["rows"][:2]
         t1 = {"rows": json.loads(json.dumps(rows)), "w": ["1", "0"][:len(rows)], "ctor": "probs"}
         tabs = [t0, t1]
         expr = ["and", ["t", 0], ["t", 1]]
-    return {"kind": "ft", "shape": shape, "rel": rel, "tables": tabs, "expr": expr}
+    return {"kind": "ft", "shape": shape, "rel": rel, "tables": tabs, "expr": expr,
+            "touch": rng.random() < .5, "int_scalars": rng.random() < .4}
 
 
 # ------------------------------------------------------------------ factor tables: Gallina printing
 def row_lit(rowdict):
-    return coqlist("(%s, %s)" % (nat(PIDX[p]), zlit(v)) for p, v in flatten(rowdict))
+    return coqlist("(%s, %s)" % (nat(PIDX[p]), zlit(vcode(v))) for p, v in flatten(rowdict))
 
 
 def table_lit(t):
-    ws = ["1"] * len(t["rows"]) if t.get("ctor") == "uniform" else t["w"]
-    return coqlist("(%s, %s)" % (row_lit(r), q(w)) for r, w in zip(t["rows"], ws))
+    return coqlist("(%s, %s)" % (row_lit(r), q(w)) for r, w in zip(t["rows"], tw(t)))
 
 
 def expr_term(e, tabs):
@@ -244,13 +286,17 @@ def ft_compare(case, res, val):
     tab, probs, probq = out
     if "raised" in res:
         return None if not defined else "msdm raised %s where the model's mix precondition holds" % res["raised"]
+    if not res.get("repeat_same", True):
+        return "evaluating the same expression twice on the same table objects gave different results"
+    if not res.get("operands_unchanged", True):
+        return "evaluating the expression changed its operand tables"
     if not defined:
         return "msdm accepted a mixture the asserts (as modelled) reject"
     if len(tab) != len(res["rows"]):
         return "row count %d (msdm) vs %d (model)" % (len(res["rows"]), len(tab))
     for i, ((mrow, mw), irow) in enumerate(zip(tab, res["rows"])):
         md = {k: v for k, v in mrow}
-        idd = {PIDX[p]: v for p, v in flatten(irow)}
+        idd = {PIDX[p]: vcode(v) for p, v in flatten(irow)}
         if md != idd:
             return "row %d differs: msdm %r model %r" % (i, irow, mrow)
         for name, mv, iv in (("weight", mw, res["w"][i]), ("prob", probs[i], res["p"][i]), ("prob(row)", probq[i], res["probq"][i])):
@@ -266,7 +312,7 @@ def oracle_ft(case, res):
     tabs = case["tables"]
 
     def key(rowdict):
-        return frozenset(flatten(rowdict))
+        return frozenset((p, vcode(v)) for p, v in flatten(rowdict))
 
     def homog(t):
         ks = [frozenset(p for p, _ in flatten(r)) for r in t["rows"]]
@@ -282,13 +328,13 @@ def oracle_ft(case, res):
     if e[0] == "and" and e[1][0] == "t" and e[2][0] == "t" and homog(tabs[e[1][1]]) and homog(tabs[e[2][1]]):
         t1, t2 = tabs[e[1][1]], tabs[e[2][1]]
         want = {}
-        for r1, w1 in zip(t1["rows"], t1["w"]):
-            for r2, w2 in zip(t2["rows"], t2["w"]):
+        for r1, w1 in zip(t1["rows"], tw(t1)):
+            for r2, w2 in zip(t2["rows"], tw(t2)):
                 f1, f2 = dict(flatten(r1)), dict(flatten(r2))
                 if all(f1[k] == f2[k] for k in f1 if k in f2) and F(w1) * F(w2) > 0:
                     m = dict(f1)
                     m.update(f2)
-                    want[frozenset(m.items())] = F(w1) * F(w2)
+                    want[frozenset((pp, vcode(v)) for pp, v in m.items())] = F(w1) * F(w2)
         if set(want) != set(got):
             return {"clause": "product rows are not the natural join of the positive-weight rows",
                     "expected_rows": len(want), "got_rows": len(got)}
@@ -304,8 +350,7 @@ def oracle_ft(case, res):
         if homog(t1) and homog(t2):
             want = {}
             for t, c in ((t1, a), (t2, bb)):
-                ws = ["1"] * len(t["rows"]) if t.get("ctor") == "uniform" else t["w"]
-                for r, w in zip(t["rows"], ws):
+                for r, w in zip(t["rows"], tw(t)):
                     want[key(r)] = want.get(key(r), F(0)) + F(w) * c
             want = {k: v for k, v in want.items() if v > 0}
             if set(want) != set(got):
@@ -338,6 +383,33 @@ def gen_layout(rng, tier):
         if len(free) < 2:
             continue
         a0, a1 = rng.sample(free, 2)
+        adj = [(p, q2) for p in free for q2 in free if abs(p[0] - q2[0]) + abs(p[1] - q2[1]) == 1]
+        template = None
+        if adj and rng.random() < .4:
+            # rarely reached goal situations, built on purpose (agents in adjacent cells)
+            a0, a1 = rng.choice(adj)
+            template = rng.choice(["each-on-others-goal", "on-foreign-goal-other-next-to-own", "other-stands-on-my-goal",
+                                   "shared-goal-between", "own-goals-behind-each-other"])
+            nb1 = [c for c in free if abs(c[0] - a1[0]) + abs(c[1] - a1[1]) == 1 and c != a0]
+            nb0 = [c for c in free if abs(c[0] - a0[0]) + abs(c[1] - a0[1]) == 1 and c != a1]
+            if template == "each-on-others-goal":           # A0 on G1, A1 on G0: they can only swap
+                cells[a0[0]][a0[1]].append("G1")
+                cells[a1[0]][a1[1]].append("G0")
+            elif template == "on-foreign-goal-other-next-to-own":   # A0 on a G1; A1 one step from another G1
+                cells[a0[0]][a0[1]].append("G1")
+                g = rng.choice(nb1) if nb1 else a0
+                cells[g[0]][g[1]].append("G1")
+            elif template == "other-stands-on-my-goal":      # A0 stands on A1's goal, A1 adjacent: sharing a goal cell
+                cells[a0[0]][a0[1]].append("G1")
+            elif template == "shared-goal-between":          # a goal of both next to both / next to one
+                common = [c for c in nb0 if c in nb1]
+                g = rng.choice(common or nb1 or nb0 or [a0])
+                cells[g[0]][g[1]].append("G")
+            else:                                            # each agent's own goal lies behind the other agent
+                cells[a0[0]][a0[1]].append("G1")
+                cells[a1[0]][a1[1]].append("G0")
+                for c in nb0[:1]:
+                    cells[c[0]][c[1]].append("G0")
         cells[a0[0]][a0[1]].append("A0")
         cells[a1[0]][a1[1]].append("A1")
         if rng.random() < .5:
@@ -354,11 +426,37 @@ def gen_layout(rng, tier):
                 rng.shuffle(cells[r][x])
         if rng.random() < .2:   # obstacle border as in msdm's own examples
             cells = [[["#"] for _ in range(w + 2)]] + [[["#"]] + row + [["#"]] for row in cells] + [[["#"] for _ in range(w + 2)]]
-        layout = "\n".join(" ".join(".".join(c) if c else "." for c in row) for row in cells)
-        return {"kind": "gg", "layout": layout, "cells": cells,
-                "fence_p": rng.choice(["0", "1/4", "1/2", "1"]),
+        # the forms a game string takes in msdm's own tests: indented, ragged spacing, blank padding around it
+        ind = rng.choice(["", "    ", "\t", "  "])
+        layout = "\n".join(ind + (" " * rng.randint(1, 3)).join(".".join(c) if c else "." for c in row) + " " * rng.randint(0, 2)
+                           for row in cells)
+        if rng.random() < .5:
+            layout = "\n" + layout + "\n" + ind
+        fp = rng.choice(["0", "1/4", "1/2", "1", "0", "1", "3/4", "1/1073741824", "1048575/1048576"])
+        return {"kind": "gg", "layout": layout, "cells": cells, "template": template,
+                "fence_p": fp, "fence_int": rng.random() < .5,
+                "sym_form": rng.choice([None, "dict", "tuple"]),
                 "collision_prob": rng.choice([None, None, None, "1/2"]),
                 "max_states": 40 if tier == "quick" else 60}
+
+
+def gen_games(rng, tier, n):
+    """n layouts; about a third are followed by a TWIN (same layout string, other fence probability / collision mode);
+    every game is preceded IN ITS PROCESS by a warm-up game (its twin or the previous layout): caches kept on the class
+    or the module, or keyed by labels only, would leak from one game into the next"""
+    out = []
+    while len(out) < n:
+        c = gen_layout(rng, tier)
+        c["warmup"] = [{k: out[-1][k] for k in ("layout", "fence_p", "fence_int", "sym_form", "collision_prob")}] if out else []
+        out.append(c)
+        if rng.random() < .35 and len(out) < n:
+            t = json.loads(json.dumps(c))
+            t["fence_p"] = rng.choice([x for x in ["0", "1/4", "1/2", "1", "3/4"] if x != c["fence_p"]])
+            t["collision_prob"] = "1/2" if c["collision_prob"] is None else None
+            t["twin"] = True
+            t["warmup"] = [{k: c[k] for k in ("layout", "fence_p", "fence_int", "sym_form", "collision_prob")}]
+            out.append(t)
+    return out
 
 
 WALLD = {"[": (-1, 0), "]": (1, 0), "^": (0, 1), "_": (0, -1)}
@@ -482,6 +580,10 @@ def features(f, s, ja):
                 out["into_wall_of_multi_wall_cell"] = 1
         if c + t in set(f["fences"]):
             out["through_fence"] = 1
+            if c + t in set(f["walls"]) or t in set(f["obst"]):
+                out["fence_and_wall_or_obstacle_on_same_move"] = 1
+        if c + t in set(f["walls"]) and t in set(f["obst"]):
+            out["wall_and_obstacle_on_same_move"] = 1
     goals = {(g[0], g[1]) for g in f["goals"]}
     if tg[0] == tg[1]:
         out["same_target_goal" if tg[0] in goals else "same_target"] = 1
@@ -512,11 +614,11 @@ def run(ctx0):
         ctx0.tier, ctx0.rng, ctx0.replay_case, ctx0.impl, ctx0.coq, ctx0.coverage)
     tier = ctx.tier
     n_ft = 300 if tier == "quick" else 5000
-    n_gg = 30 if tier == "quick" else 400
+    n_gg = 28 if tier == "quick" else 400
     if ctx.replay_case:
         cases = [ctx.replay_case["detail"]["case"]]
     else:
-        cases = [gen_ft_case(ctx.rng) for _ in range(n_ft)] + [gen_layout(ctx.rng, tier) for _ in range(n_gg)]
+        cases = [gen_ft_case(ctx.rng) for _ in range(n_ft)] + gen_games(ctx.rng, tier, n_gg)
     impl = ctx.impl("c18_impl.py", {"cases": cases}, shards=8 if tier == "quick" else 16)["results"]
 
     terms, meta = [], []
@@ -537,6 +639,14 @@ def run(ctx0):
         if not facts_match(f, res["facts"]):
             ctx.violation("C18:gridgame:layout-parse-differs", {"case": case, "generator_facts": f, "msdm_facts": res["facts"]}, found=True)
             continue
+        if res.get("repeat_mismatch"):
+            ctx.violation("C18:gridgame:repeated-or-reordered-call-differs",
+                          {"case": case, "mismatch": res["repeat_mismatch"]}, found=True)
+        if case.get("template"):
+            feats["template:" + case["template"]] = feats.get("template:" + case["template"], 0) + 1
+        if case.get("twin"):
+            feats["twin_game_same_layout_other_parameters"] = feats.get("twin_game_same_layout_other_parameters", 0) + 1
+        feats["fence_p=" + case["fence_p"]] = feats.get("fence_p=" + case["fence_p"], 0) + 1
         L = layout_lit(case, f)
         for k, st in enumerate(res["states"]):
             xs = []
@@ -575,6 +685,17 @@ def run(ctx0):
         st = res["states"][k]
         if kind == "chk":
             counters["gg_states"] += 1
+            if st["s"] is not None:
+                own = [any((g[0], g[1]) == tuple(st["s"][a]) and a in g[2] for g in f["goals"]) for a in range(2)]
+                foreign = [any((g[0], g[1]) == tuple(st["s"][a]) and a not in g[2] for g in f["goals"]) for a in range(2)]
+                for name, hit in (("state:both_on_foreign_goal", all(foreign) and not any(own)),
+                                  ("state:both_on_foreign_goal_adjacent", all(foreign) and not any(own) and
+                                   abs(st["s"][0][0] - st["s"][1][0]) + abs(st["s"][0][1] - st["s"][1][1]) == 1),
+                                  ("state:one_on_own_goal_other_on_foreign_goal", (own[0] and foreign[1]) or (own[1] and foreign[0])),
+                                  ("state:both_on_own_goal", all(own)),
+                                  ("state:agent_on_foreign_goal", any(foreign) and not any(own))):
+                    if hit:
+                        feats[name] = feats.get(name, 0) + 1
             if st["s"] is not None and st["is_absorbing"]:
                 counters["gg_goal_states"] += 1
             names = CLAUSES_TERM if st["s"] is None else (CLAUSES_GOAL if st["is_absorbing"] else CLAUSES_MOVE)
